@@ -16,8 +16,9 @@ Readings fixed here (see the report):
   `C17_sequence_header_literal_differs` in Props.lean records the difference.
 * ParallelAction has no pseudo code; it always reports success (`finish(true)`).
 * IfElseAction with the selected branch absent reports success.
-* RepeatAction with times = 0 is outside the evaluator's domain (the code computes `times - 1` in
-  `size_t`); `evalOk` excludes it.
+* RepeatAction with times = 0 runs nothing and reports success (reason RepeatNoTimes), as
+  `for (i = 0; i < times; ++i)` says; the code used to compute `times - 1` in `size_t`
+  (patches/C17-05).
 -/
 import TboxModel.C17.Model
 namespace Tbox.C17
@@ -60,7 +61,9 @@ def eval : T → Option (Bool × Nat)
         match evalAt cs 0 with
         | some (false, w) => some (fr, w)
         | _ => none
-    | .repeat_ _ m =>
+    | .repeat_ n m =>
+        -- `for (i = 0; i < times …)`: zero times runs nothing
+        if n == 0 then some (true, 7) else
         match evalAt cs 0 with
         | none => none
         | some (s, w) => if (m == .breakSucc && s) || (m == .breakFail && !s) then some (s, w) else some (true, 7)
@@ -102,9 +105,9 @@ def evalAny : TL → Bool → Bool
 end
 
 mutual
-/-- trees on which the evaluator speaks: no timeouts anywhere, RepeatAction times ≥ 1 -/
+/-- trees on which the evaluator speaks: no timeouts anywhere -/
 def evalOk : T → Bool
-  | .node d cs => d.tmo.isNone && (match d.kind with | .repeat_ n _ => n ≥ 1 | _ => true) && evalOkL cs
+  | .node d cs => d.tmo.isNone && evalOkL cs
 def evalOkL : TL → Bool
   | .nil => true
   | .cons t ts => evalOk t && evalOkL ts
